@@ -1,4 +1,5 @@
 import FuModel.Xargs.Batch
+import FuModel.Base.Utf8
 /-
 Model of `do_xargs`'s option layer: clap's "last occurrence wins" for values and
 `indices_of`, `normalize_options`, `validate_positive_usize`, the choice of the
@@ -124,6 +125,8 @@ def readInput (delim : Option UInt8) (input : List UInt8) : List Arg × Bool :=
     wired, input read and processed, exit status mapped. -/
 def xargsMain (opts : List Opt) (cmd : List (List UInt8)) (input : List UInt8)
     (script : List Outcome) (sys : Nat) (ptr : Nat := 8) (maxArg : Nat := 131072) : MainResult :=
+  -- `main`: the argument vector is held as strings; a word that is not valid UTF-8 is refused
+  if cmd.any (fun w => !FuModel.Utf8.validUtf8 w) then ⟨1, []⟩ else
   -- clap: an option with `ArgAction::Set`/`SetTrue` may be given only once
   if dupOpts opts then ⟨1, []⟩ else
   -- validate_positive_usize
